@@ -54,6 +54,7 @@ fn e1(name: &str, desc: String, grammars: Vec<G>) -> B {
             lazy: false,
             pair_mode: None,
             clone_mode: false,
+            explicit_inputs: None,
         },
     }
 }
@@ -93,6 +94,10 @@ impl B {
     fn pairs(mut self, m: PairMode) -> Self {
         self.u.pair_mode = Some(m);
         self.u.alarm |= DIF;
+        self
+    }
+    fn inputs(mut self, v: Vec<Vec<Tok>>) -> Self {
+        self.u.explicit_inputs = Some(v);
         self
     }
     fn clone_mode(mut self) -> Self {
@@ -277,7 +282,7 @@ pub fn units(prop: &str, tier: Tier) -> Option<Vec<Unit>> {
             .map(|u| Unit::Custom { name: u.name.clone(), run: Box::new(move |cx| eng_pratt::run_unit(&u, cx)) })
             .collect(),
         "C10" => {
-            let alarm = ACC | VAL | EXT | EMI | PSP | MAL;
+            let alarm = ACC | VAL | EXT | EMI | PSP | MAL | PUL;
             let k = en::k01();
             let ke = en::k_ext();
             let mut v = vec![];
@@ -291,12 +296,49 @@ pub fn units(prop: &str, tier: Tier) -> Option<Vec<Unit>> {
                 KindId::MappedGapped,
                 KindId::U8,
                 KindId::Io,
+                KindId::Bytes,
                 KindId::WithContext,
                 KindId::WithContextMb,
                 KindId::MapSpan,
             ] {
                 v.push(class(&format!("k01-{}", kind.name()), &k, pick(3, 3)).kind(kind).alarm(alarm).unit());
-                v.push(class(&format!("kext-{}", kind.name()), &ke, pick(2, 3)).kind(kind).alarm(alarm).unit());
+                v.push(class(&format!("kext-{}", kind.name()), &ke, pick(3, 3)).kind(kind).alarm(alarm).unit());
+            }
+            // &[T; N]: all inputs of length exactly N
+            let arr_inputs: Vec<Vec<Tok>> = en::inputs(&ABC, 3).into_iter().filter(|t| t.len() == 3).collect();
+            v.push(class("k01-&[char; 3]", &k, 3).kind(KindId::Array3).inputs(arr_inputs.clone()).alarm(alarm).unit());
+            v.push(class("kext-&[char; 3]", &ke, 3).kind(KindId::Array3).inputs(arr_inputs).alarm(alarm).unit());
+            // Stream: inputs longer than the 512-token batch, grammars that backtrack over the whole input
+            let a_star = |s: Sink| Rep(b(Just('a')), Bounds::STAR, s);
+            let long_gs = vec![
+                Or(b(Then(b(a_star(Sink::Count)), b(Just('b')))), b(Then(b(a_star(Sink::Count)), b(Just('c'))))),
+                Then(b(OrNot(b(Then(b(a_star(Sink::Bare)), b(Just('b')))))), b(Rep(b(Any), Bounds::STAR, Sink::Count))),
+                Then(b(Rewind(b(Rep(b(Any), Bounds::STAR, Sink::Count)))), b(Rep(b(Any), Bounds::STAR, Sink::Count))),
+                Then(b(Not(b(Then(b(a_star(Sink::Bare)), b(Just('b')))))), b(Rep(b(Any), Bounds::STAR, Sink::Count))),
+                Then(b(AndIs(b(a_star(Sink::Count)), b(Then(b(a_star(Sink::Bare)), b(Just('c')))))), b(Just('c'))),
+                Choice(Coll::Vec, vec![Then(b(a_star(Sink::Count)), b(End)), Then(b(a_star(Sink::Count)), b(JustSeq('c', 'c'))), Then(b(a_star(Sink::Count)), b(Just('c')))]),
+                Recover(b(Then(b(a_star(Sink::Count)), b(Just('b')))), b(Rep(b(Any), Bounds::STAR, Sink::Count))),
+            ];
+            let mut long_inputs: Vec<Vec<Tok>> = vec![];
+            for n in (509..=516).chain(1021..=1027) {
+                for tail in ["", "c", "b", "cc", "ab"] {
+                    let mut t: Vec<Tok> = vec!['a'; n];
+                    t.extend(tail.chars());
+                    long_inputs.push(t);
+                }
+            }
+            for kind in [KindId::Stream, KindId::BoxedStream, KindId::Str] {
+                v.push(
+                    e1(&format!("long-inputs-{}", kind.name()), "hand-picked grammars that backtrack over the whole input, inputs a^n.tail with n around 512 and 1024 (Stream batch boundaries)".into(), long_gs.clone())
+                        .kind(kind)
+                        .inputs(long_inputs.clone())
+                        .probes(NOPROBE)
+                        .alarm(alarm)
+                        .unit(),
+                );
+            }
+            for n in ["graphemes", "iterinput", "cursor-machine"] {
+                v.push(Unit::Custom { name: n.to_string(), run: Box::new(move |cx| eng_inputs::run(n, tier, cx)) });
             }
             v
         }
